@@ -6,7 +6,7 @@ Scripts are lists of integers: [nslots, op, x, y, z, op, x, y, z, ...].
 M = 1000000007
 
 OPS = {"NEW": 0, "LINK": 1, "UNLINK": 2, "DROP": 3, "ARR": 4, "ARRSET": 5, "CHURN": 6, "SUM": 7, "GCFULL": 8,
-       "GCMINOR": 9, "STR": 10, "DEEP": 11, "PAIRS": 12, "CLOSURE": 13, "GLOBAL": 14, "SUMALL": 15, "KEEPCHURN": 16}
+       "GCMINOR": 9, "STR": 10, "DEEP": 11, "PAIRS": 12, "CLOSURE": 13, "GLOBAL": 14, "SUMALL": 15, "KEEPCHURN": 16, "FILLARR": 17, "REFRESH": 18}
 
 
 class Node:
@@ -150,6 +150,19 @@ class World:
                 self.out.append("global %d" % self.checksum(self.glob))
             else:
                 self.glob = None
+        elif op == 17:
+            dst = self.slots[x % ns]
+            if dst is not None:
+                dst.arr = [self.new_node(z) for _ in range(y)]
+                self.alloc_bytes += 24 + 8 * y
+        elif op == 18:
+            dst = self.slots[x % ns]
+            if dst is not None and dst.arr is not None and y > 0:
+                i = 0
+                while i < len(dst.arr):
+                    if dst.arr[i] is not None:
+                        dst.arr[i].a = self.new_node(1)
+                    i += y
         elif op == 16:
             for i in range(x):
                 n = self.new_node(1)
@@ -205,9 +218,11 @@ def generate(rng, max_ops=200, live_limit=256 * 1024, profile=None):
     drawn per script."""
     nslots = rng.choice([2, 4, 8, 16, 32])
     nops = rng.randint(5, max_ops)
-    profile = profile or rng.choice(["mixed", "mixed", "links", "arrays", "churn", "deep", "interior", "oldwrite", "oldwrite"])
+    profile = profile or rng.choice(["mixed", "mixed", "links", "arrays", "churn", "deep", "interior", "oldwrite", "oldwrite", "wide", "wide"])
     if profile == "oldwrite":
         return generate_oldwrite(rng), profile
+    if profile == "wide":
+        return generate_wide(rng), profile
     weights = {
         "mixed": dict(NEW=10, LINK=10, UNLINK=3, DROP=4, ARR=3, ARRSET=6, CHURN=4, SUM=6, GCFULL=1, GCMINOR=2, STR=2, DEEP=2, PAIRS=2, CLOSURE=2, GLOBAL=2, SUMALL=2, KEEPCHURN=1),
         "links": dict(NEW=12, LINK=20, UNLINK=6, DROP=5, SUM=6, GCMINOR=2, GCFULL=1, SUMALL=2, CHURN=3),
@@ -275,6 +290,36 @@ def generate(rng, max_ops=200, live_limit=256 * 1024, profile=None):
                 w.step(OPS["GLOBAL"], 2, 0, 0)
     script += [OPS["SUMALL"], 0, 0, 0, OPS["GLOBAL"], 1, 0, 0]
     return script, profile
+
+
+def generate_wide(rng):
+    """Wide graphs (hundreds to thousands of nodes hanging off arrays) that age over minor
+    collections and keep getting fresh children: many work items for the parallel marking and
+    evacuation tasks (work stealing), promotion of objects that point to young ones."""
+    nslots = rng.choice([2, 4, 8])
+    ops = []
+    for i in range(nslots):
+        ops.append(("NEW", i, rng.choice([0, 2]), 0))
+    for rnd in range(rng.randint(1, 3)):
+        for i in range(rng.randint(1, min(3, nslots))):
+            ops.append(("FILLARR", rng.randrange(nslots), rng.choice([70, 150, 400, 1200, 3000]), rng.choice([0, 1, 3])))
+        for _ in range(rng.randint(1, 3)):
+            ops.append((rng.choice(["GCMINOR", "GCMINOR", "GCFULL"]), 0, 0, 0))
+            if rng.random() < 0.8:
+                ops.append(("REFRESH", rng.randrange(nslots), rng.choice([1, 2, 3, 7]), 0))
+            if rng.random() < 0.3:
+                ops.append(("CHURN", rng.choice([100, 1000]), rng.choice([0, 8]), 0))
+        for _ in range(rng.randint(1, 3)):
+            ops.append(("GCMINOR", 0, 0, 0))
+        ops.append(("SUMALL", 0, 0, 0))
+        if rng.random() < 0.4:
+            ops.append(("DROP", rng.randrange(nslots), 0, 0))
+            ops.append(("NEW", rng.randrange(nslots), 1, 0))
+    script = [nslots]
+    for (name, x, y, z) in ops:
+        script += [OPS[name], x, y, z]
+    script += [OPS["SUMALL"], 0, 0, 0, OPS["GLOBAL"], 1, 0, 0]
+    return script
 
 
 def generate_oldwrite(rng):
